@@ -16,6 +16,10 @@ func (p *Packet) Unmarshal(dAtA []byte) error {
 	return p.UnmarshalVT(dAtA)
 }
 
+func (p *Packet) MarshalTo(dAtA []byte) (int, error) {
+	return p.MarshalToVTStrict(dAtA)
+}
+
 func (p *Packet) Size() int {
 	return p.SizeVT()
 }
